@@ -476,6 +476,11 @@ def r6_folders(c, facts, rule='C17.R6'):
 
 
 def run(c, facts):
+    import c15 as _c15e
+    c.run(lambda c: _c15e.r17_eval_unconditional(c, facts, rule='C17.R14'))      # definitions and references are answered from an evaluation of the current texts, in every folder
+    import c09 as _c09g
+    R13 = c.rule('C17.R13', 'EVERY-USE-RESOLVED: every identifier use is looked up in the scope stack of its own position - the definition answered is the one in scope there (shared with C09.R4)')
+    c.shared(R13, _c09g.r4_graph_complete, 'C09.R4', facts)
     import c08 as _c08
     R11 = c.rule('C17.R11', 'BINDING-SOUND: the binding relation the handlers answer from is the lexical one: binders live exactly as long as their construct, inner ones shadow outer ones (shared with C08.R1, C08.R2)')
     c.shared(R11, _c08.r1_innermost, 'C08.R1', facts)
